@@ -161,3 +161,51 @@ func clipCircleProbe(ctx *core.Ctx, bin string) {
 		}
 	}
 }
+
+// circleFeatureProbe: a stored Feature with `properties.type = "Circle"` (the
+// documented circle object). Where TEST GET key id <predicate> <area> = 1 the
+// searches must return it.
+func circleFeatureProbe(ctx *core.Ctx, bin string) {
+	s, err := srv.Start(srv.Opts{Bin: bin, Args: []string{"--appendonly", "no"}})
+	if err != nil {
+		ctx.Inconclusive("circle-feature probe: " + err.Error())
+		return
+	}
+	defer s.Kill9()
+	c, err := respc.Dial(s.Addr(), 5*time.Second)
+	if err != nil {
+		ctx.Inconclusive("circle-feature probe: " + err.Error())
+		return
+	}
+	defer c.Close()
+	c.Timeout = 20 * time.Second
+	obj := `{"type":"Feature","geometry":{"type":"Point","coordinates":[-115,33]},"properties":{"type":"Circle","radius":1000,"radius_units":"m"}}`
+	if r, err := c.Do("SET", "circk", "c", "OBJECT", obj); err != nil || r.IsErr() {
+		ctx.Count("circle_feature_refused", 1)
+		return
+	}
+	c.Do("SET", "circk", "p", "POINT", "33", "-115")
+	for _, q := range [][]string{{"INTERSECTS", "BOUNDS", "32", "-116", "34", "-114"}, {"WITHIN", "BOUNDS", "32", "-116", "34", "-114"}, {"INTERSECTS", "CIRCLE", "33", "-115", "5000"}, {"WITHIN", "CIRCLE", "33", "-115", "5000"}, {"INTERSECTS", "POINT", "33", "-115"}} {
+		tr, err := c.Do(append([]string{"TEST", "GET", "circk", "c", q[0]}, q[1:]...)...)
+		if err != nil || tr.Kind != ':' || tr.Int != 1 {
+			continue
+		}
+		r, err := c.Do(append([]string{q[0], "circk", "IDS"}, q[1:]...)...)
+		if err != nil || r.Kind != '*' || len(r.Arr) != 2 {
+			continue
+		}
+		ctx.Eval(1)
+		ctx.Distinct("circle-feature|" + q[0] + "|" + q[1])
+		found := false
+		for _, e := range r.Arr[1].Arr {
+			if e.Str == "c" {
+				found = true
+			}
+		}
+		if !found {
+			ctx.Violation("lost:stored-circle-feature", fmt.Sprintf("`SET circk c OBJECT %s`: TEST GET circk c %s %v = 1, but %s circk IDS %v returns %s", obj, q[0], q[1:], q[0], q[1:], r.String()),
+				map[string]any{"object": obj, "query": q})
+			return
+		}
+	}
+}
